@@ -1359,6 +1359,10 @@ impl Exec {
         if genuine.is_none() {
             errs.push(EClass::Decrypt);
         }
+        if errs.contains(&EClass::OneWay) {
+            // an out-of-phase call returns the state error (a size error may still come first)
+            errs.retain(|c| matches!(c, EClass::OneWay | EClass::Input));
+        }
         errs.sort();
         errs.dedup();
         let mut buf = vec![CANARY; capn];
